@@ -35,21 +35,34 @@ TAGS = {
     33: 'an unchanged OMEGA/SIGMA value changed its spelling',
     34: 'the $OMEGA/$SIGMA edit itself crashes inside update_source',
     35: 're-read OMEGA/SIGMA names or distribution structure differ from the in-memory model',
+    41: 're-reading the code generated after a structural random-effect edit raises',
+    42: 're-read random-variable names differ from the in-memory model (structural edit)',
+    43: 're-read block structure / levels differ from the in-memory model (structural edit)',
+    44: 're-read variances / covariances differ from the in-memory model (structural edit)',
+    45: 're-read FIX flags differ from the in-memory model (structural edit)',
+    46: 're-read OMEGA/SIGMA parameter names differ from the in-memory model (structural edit)',
+    47: 'a structural random-effect edit crashes with an internal error',
+    48: 're-read FIX flags inside a joint distribution differ from the in-memory model (structural edit)',
 }
 CORR = (1, 2, 4, 5, 6, 21, 22, 23, 24)
-ORACLE = (11, 12, 13, 14, 15, 31, 32, 33, 34, 35)
+ORACLE = (11, 12, 13, 14, 15, 31, 32, 33, 34, 35, 41, 42, 43, 44, 45, 46, 47, 48)
 GUARD_NAMES = {201: 'g_plain_layout', 202: 'g_xn_uniform', 203: 'g_xn_nofix', 204: 'g_spaced', 205: 'g_repr',
                206: 'g_count', 207: 'g_rm_single', 208: 'g_removed_unnamed', 209: 'g_names', 210: 'g_bounds_canonical',
-               221: 'g_plain_item', 222: 'g_oxn', 223: 'g_sd_exact', 224: 'g_orepr', 226: 'g_ocount', 227: 'g_block_scale_exact',
+               221: 'g_plain_item', 222: 'g_oxn', 223: 'g_sd_exact', 224: 'g_orepr', 226: 'g_ocount', 227: 'g_block_scale_exact', 241: 'c_default_names_in_place', 242: 'c_block_fix_uniform',
+               244: 'c_no_item_leaves_a_multi_item_record', 245: 'c_no_scaled_record', 246: 'c_no_xn_repeat',
                299: 'plan_error'}
 # guard conjunct -> finding id (conjuncts without an entry describe unrepresentable inputs, not defects)
 FINDING_OF = {202: 'C04-THETA-XN-EDIT', 203: 'C04-THETA-XN-FIX', 204: 'C04-THETA-GLUED-RPAR',
               201: 'C04-THETA-EXOTIC-LAYOUT', 207: 'C04-THETA-REMOVE-XN', 208: 'C04-THETA-REMOVE-COMMENT',
-              209: 'C04-THETA-NAMES-SHIFT', 210: 'C04-THETA-BOUND-RESPELL', 222: 'C04-OMEGA-XN-SPLIT', 223: 'C04-OMEGA-SCALE-INEXACT', 227: 'C04-OMEGA-SCALE-INEXACT'}
+              209: 'C04-THETA-NAMES-SHIFT', 210: 'C04-THETA-BOUND-RESPELL', 222: 'C04-OMEGA-XN-SPLIT', 223: 'C04-OMEGA-SCALE-INEXACT', 227: 'C04-OMEGA-SCALE-INEXACT',
+              241: 'C04-OMEGA-NAMES-SHIFT', 242: 'C04-OMEGA-BLOCK-FIX-LOST', 244: 'C04-OMEGA-DIAG-ITEM-REMOVED',
+              245: 'C04-OMEGA-SCALE-INEXACT', 246: 'C04-OMEGA-XN-SPLIT'}
 # which false guard conjuncts can explain which oracle tag
 EXPLAINS = {11: (201, 202, 203, 204, 205, 207, 208), 12: (201, 202, 203, 205, 207), 14: (201, 202, 207, 206),
             15: (208, 209, 207, 202), 13: (210, 201, 202, 207),
-            31: (221, 222, 224), 32: (221, 222, 223, 224, 227), 33: (221, 222, 223, 227), 34: (221, 226), 35: (221, 222)}
+            31: (221, 222, 224), 32: (221, 222, 223, 224, 227), 33: (221, 222, 223, 227), 34: (221, 226), 35: (221, 222),
+            41: (244, 246), 42: (244, 246), 43: (244, 246), 44: (245, 244, 246), 45: (244, 246), 48: (242, 244, 246), 46: (241, 244, 246),
+            47: (244, 246)}
 
 
 # ------------------------------------------------------------------ worker side
@@ -62,7 +75,7 @@ def run_theta_spec(spec):
     if po is None or not pinfo.get('ok'):
         # the layout itself is refused: only the parse correspondence can be checked
         if po is not None:
-            term = ("(CTheta (mkTS " + ft0.term() + " [] [] [] [] (ROk []) " + "[" + po + "] None))")
+            term = ("(C1 (CTheta (mkTS " + ft0.term() + " [] [] [] [] (ROk []) " + "[" + po + "] None)))")
             out.append((term, {'edit': 'parse-only', 'parse_error': pinfo.get('error')}))
         else:
             out.append((None, {'edit': 'lark-reject', 'parse_error': pinfo.get('pre_error')}))
@@ -72,7 +85,7 @@ def run_theta_spec(spec):
     for edit in spec['edits']:
         term, info, edited = L.observe_theta_step(cur, edit, first)
         first = None
-        out.append(('(CTheta ' + term + ')', info))
+        out.append(('(C1 (CTheta ' + term + '))', info))
         if edited is None or not info.get('consistent'):
             break
         cur = edited
@@ -94,7 +107,7 @@ def run_rv_spec(spec):
     for edit in spec['edits']:
         term, info, edited = L.observe_rv_step(cur, edit, fresh)
         fresh = []
-        out.append(('(COmega ' + term + ')', info))
+        out.append(('(C1 (COmega ' + term + '))', info))
         if edited is None or not info.get('consistent'):
             break
         cur = edited
@@ -131,8 +144,78 @@ def gen_and_run_rv(task):
                 spec['edits'].append(edit)
                 term, info, edited = L.observe_rv_step(cur, edit, fresh)
                 fresh = []
-                steps.append(('(COmega ' + term + ')', info))
+                steps.append(('(C1 (COmega ' + term + '))', info))
                 if edited is None or not info.get('consistent'):
+                    break
+                cur = edited
+            res.append((spec, steps))
+        except L.UnknownRule as e:
+            res.append((spec, [(None, {'edit': 'unknown-rule', 'rule': str(e)})]))
+        except Exception:
+            res.append((spec, [(None, {'edit': 'harness-error', 'error': traceback.format_exc()[-800:]})]))
+    return res
+
+
+def hist_layout(rng):
+    for _ in range(50):
+        om, ne = L.gen_rv_layout(rng, 'OMEGA')
+        if 3 <= ne <= 5:
+            return om, ne
+    return '$OMEGA 0.1\n$OMEGA 0.2\n$OMEGA 0.3\n', 3
+
+
+def run_hist_spec(spec):
+    from pharmpy.modeling import read_model_from_string
+    code = L.hist_model_code(spec['omegas'], spec['sigmas'], spec['ne'], spec['ns'], spec['abbr'])
+    try:
+        cur = read_model_from_string(code)
+    except Exception as e:
+        return [(None, {'edit': 'rv-layout-reject', 'parse_error': type(e).__name__ + ': ' + str(e)[:80]})]
+    if not L.layout_read_exactly(cur):
+        return [(None, {'edit': 'rv-layout-repaired-on-read'})]
+    out = []
+    for op in spec['edits']:
+        term, info, edited = L.observe_hist_step(cur, op)
+        out.append((term, info))
+        if edited is None or not info.get('chain_ok'):
+            break
+        cur = edited
+    return out
+
+
+def gen_and_run_hist(task):
+    from pharmpy.modeling import read_model_from_string
+    subseed, count = task
+    rng = random.Random(subseed)
+    res = []
+    for _ in range(count):
+        if rng.random() < 0.35:      # one record per eta (no multi-item record involved)
+            ne = rng.choice([3, 4, 4, 5])
+            om = ''.join(f"$OMEGA {rng.choice(L.OV)}{rng.choice(['', '', ' FIX'])}\n" for _ in range(ne))
+        else:
+            om, ne = hist_layout(rng)
+        spec = {'kind': 'hist', 'omegas': om, 'sigmas': '$SIGMA 1\n', 'ne': ne, 'ns': 1,
+                'abbr': rng.random() < 0.4, 'edits': []}
+        try:
+            code = L.hist_model_code(om, spec['sigmas'], ne, 1, spec['abbr'])
+            try:
+                cur = read_model_from_string(code)
+            except Exception as e:
+                res.append((spec, [(None, {'edit': 'rv-layout-reject',
+                                           'parse_error': type(e).__name__ + ': ' + str(e)[:80]})]))
+                continue
+            if not L.layout_read_exactly(cur):
+                res.append((spec, [(None, {'edit': 'rv-layout-repaired-on-read'})]))
+                continue
+            steps = []
+            for step in range(rng.choice([1, 2, 3, 4])):
+                op = L.gen_hist_op(rng, cur)
+                if op is None:
+                    break
+                spec['edits'].append(op)
+                term, info, edited = L.observe_hist_step(cur, op)
+                steps.append((term, info))
+                if edited is None or not info.get('chain_ok'):
                     break
                 cur = edited
             res.append((spec, steps))
@@ -168,7 +251,7 @@ def gen_and_run(task):
                 spec['edits'].append(edit)
                 term, info, edited = L.observe_theta_step(cur, edit, first)
                 first = None
-                steps.append(('(CTheta ' + term + ')', info))
+                steps.append(('(C1 (CTheta ' + term + '))', info))
                 if edited is None or not info.get('consistent'):
                     break
                 cur = edited
@@ -186,6 +269,8 @@ def run_spec_task(spec):
     try:
         if spec.get('kind') == 'rv':
             return (spec, run_rv_spec(spec))
+        if spec.get('kind') == 'hist':
+            return (spec, run_hist_spec(spec))
         return (spec, run_theta_spec(spec))
     except Exception:
         return (spec, [(None, {'edit': 'harness-error', 'error': traceback.format_exc()[-800:]})])
@@ -205,8 +290,8 @@ def classify(ctx, spec, step_no, tags, info):
     status = 'ok'
     for t in oracle:
         why = [g for g in guards if g in EXPLAINS.get(t, ())]
-        if t == 32 and info.get('max_rel_dev') is not None and not (info['max_rel_dev'] < 1e-12):
-            why = [g for g in why if g not in (223, 227)]      # more than float noise: not explained by the scale
+        if t in (32, 44) and info.get('max_rel_dev') is not None and not (info['max_rel_dev'] < 1e-12):
+            why = [g for g in why if g not in (223, 227, 245)]      # more than float noise: not explained by the scale
         fids = [FINDING_OF[g] for g in why if g in FINDING_OF]
         unrep = [g for g in why if g not in FINDING_OF]
         open_f = [f for f in fids if ctx.open_finding(f)]
@@ -245,7 +330,7 @@ def evaluate(ctx, results, label):
                 continue
             terms.append('(' + term + ')')
             index.append((spec, k, info))
-    verdicts = ctx.run_cases(label, IMPORTS, 'case', terms, 'verdict', shard=40) if terms else []
+    verdicts = ctx.run_cases(label, IMPORTS, 'case2', terms, 'verdict2', shard=40) if terms else []
     out = []
     for (spec, k, info), tags in zip(index, verdicts):
         st = classify(ctx, spec, k, tags, info)
@@ -274,7 +359,7 @@ def evaluate_quiet(ctx, results, label):
             if term is not None:
                 terms.append('(' + term + ')')
                 index.append((spec, k, info))
-    verdicts = ctx.run_cases(label, IMPORTS, 'case', terms, 'verdict', shard=40) if terms else []
+    verdicts = ctx.run_cases(label, IMPORTS, 'case2', terms, 'verdict2', shard=40) if terms else []
     return [(s, k, i, t) for (s, k, i), t in zip(index, verdicts)], None
 
 
@@ -291,8 +376,10 @@ def run(ctx):
     ctx.assumptions += [
         'token texts and names are ASCII; numeric tokens have at most 15 significant digits',
         'update of $ABBR / statement renumbering when thetas are removed is outside this check (C02)',
-        'NOT COVERED: structural random-effect edits (add / remove / join / split eta or eps: '
-        'update_random_variable_records, create_omega_single/block, OmegaRecord.remove) - no model, no tie',
+        'structural random-effect edits (create_joint_distribution, split_joint_distribution, add_iiv, remove_iiv, add_iov, '
+        'remove_iov): ORACLE ONLY (re-read after every step: no exception, same rv names / order / block structure / '
+        'values / FIX / parameter names); no model of update_random_variable_records / create_omega_* / $ABBR, no theorem; '
+        'failures are attributed to open findings by class predicates evaluated in Coq on exported facts (tags 241-246)',
         'NOT COVERED: the numeric conversion covariance <-> SD / CORRELATION / CHOLESKY (numpy, LAPACK) and float '
         'arithmetic (** 0.5, ** 2): engines; the harness recomputes the converted array and hands it to the model; '
         're-read deviations of scaled records are accepted only below 1e-12 relative',
@@ -315,28 +402,35 @@ def run(ctx):
     per = 6
     tasks = [(ctx.rng.getrandbits(48), per) for _ in range(nlay // per)]
     rvtasks = [(ctx.rng.getrandbits(48), 3) for _ in range(nrv // 3)]
+    nhist = 80 if ctx.tier == 'quick' else 900
+    histtasks = [(ctx.rng.getrandbits(48), 4) for _ in range(nhist // 4)]
     results = []
     with ProcessPoolExecutor(max_workers=JOBS) as ex:
         f_reg = ex.map(run_spec_task, [json.loads(p.read_text()) for p in reg])
         f_rv = ex.map(gen_and_run_rv, rvtasks)
+        f_hist = ex.map(gen_and_run_hist, histtasks)
         f_th = ex.map(gen_and_run, tasks)
         results += list(f_reg)
         for chunk in f_th:
             results += chunk
         for chunk in f_rv:
             results += chunk
+        for chunk in f_hist:
+            results += chunk
     rows, stats = evaluate(ctx, results, 'cases')
     ctx.coverage['evaluations'] = len(rows)
 
     def key(s, k):
-        return json.dumps([s.get('layout'), s.get('omegas'), s.get('sigmas'), s['edits'][:k + 1]])
+        return json.dumps([s.get('layout'), s.get('omegas'), s.get('sigmas'), s.get('abbr'), s['edits'][:k + 1]])
     ctx.coverage['distinct_nontrivial'] = len({key(s, k) for s, k, i, t, st in rows if i.get('edit') != 'parse-only'})
     ctx.coverage['rule'] = ('$THETA layouts generated from the record grammar (1-3 records, 1-4 thetas each, all forms, FIX '
                             'positions, xn, name comments, numeric spellings) x 1-3 edits over set init/lower/upper/fix/unfix/'
                             'fix-to/unconstrain/multi/add/remove; $OMEGA/$SIGMA layouts (DIAGONAL(n), items with FIX/SD/VAR in any '
                             'position, (..)xn, BLOCK(n) with FIX/SD/CORR/CHOLESKY/VAR/COV, BLOCK SAME, name comments) x 1-3 edits '
-                            'over set init / fix / unfix / multi; non-trivial = a step with an edit; distinct by layout text + '
-                            'edit prefix')
+                            'over set init / fix / unfix / multi; structural histories (ORACLE ONLY): 3-5 etas, unnamed or '
+                            'named by $ABBR, 1-4 steps of create_joint_distribution / split_joint_distribution / add_iiv / remove_iiv '
+                            '/ add_iov / remove_iov / fix / unfix / set_initial_estimates; non-trivial = a step with an edit; '
+                            'distinct by layout text + edit prefix')
     ctx.coverage['case_status'] = stats
     hist, gh = {}, {}
     for s, k, i, t, st in rows:
@@ -351,6 +445,8 @@ def run(ctx):
         'reread_failures': sum(1 for s, k, i, t, st in rows if 11 in t or 31 in t),
         'theta_steps': sum(1 for s, k, i, t, st in rows if s.get('kind', 'theta') == 'theta'),
         'rv_steps': sum(1 for s, k, i, t, st in rows if s.get('kind') == 'rv'),
+        'structural_history_steps': sum(1 for s, k, i, t, st in rows if s.get('kind') == 'hist'),
+        'structural_history_refused_by_api': sum(1 for s, k, i, t, st in rows if s.get('kind') == 'hist' and 'ValueError' in str(i.get('edit_error'))),
         'rv_steps_with_scaled_block': sum(1 for s, k, i, t, st in rows if i.get('scaled_block')),
     }
     if source_sha(*anchors) != ctx.coverage['source_sha']:
